@@ -58,6 +58,7 @@ type VC struct {
 	nfresh    int
 	target    *ssa.Function // function under proof (nil for lemmas)
 	globalRefs map[string]int64
+	nheap      int
 	sideStack [][]*Term
 	specHeap  map[string][][2]string // spec function -> heap components (name, sort) it reads
 }
@@ -1145,7 +1146,19 @@ func (x *Exec) loopStoreRoots(fr *Frame, li *LoopInfo, comp string) ([]*Term, []
 				}
 			case *ssa.MapUpdate:
 				if strings.HasPrefix(comp, "Map.") {
-					return nil, nil, false
+					// only the updated map object changes when the map is fixed across the loop
+					if !strings.HasPrefix(comp, "Map."+typeKey(i.Map.Type().Underlying().(*types.Map))+".") {
+						continue
+					}
+					if ins2, ok := i.Map.(ssa.Instruction); ok && li.Body[ins2.Block()] {
+						return nil, nil, false
+					}
+					mv, ok := fr.env[i.Map]
+					if !ok || mv.K != KMap {
+						return nil, nil, false
+					}
+					roots = append(roots, mv.X)
+					ranges = append(ranges, nil)
 				}
 			}
 		}
@@ -1263,6 +1276,10 @@ func (x *Exec) execBlock(fr *Frame, b *ssa.BasicBlock, st *State) {
 			continue
 		}
 		x.execInstr(fr, b, ins, st)
+		switch ins.(type) {
+		case *ssa.Store, *ssa.Call, *ssa.MapUpdate, *ssa.Alloc, *ssa.MakeSlice, *ssa.MakeMap, *ssa.MakeInterface, *ssa.MakeClosure, *ssa.Convert, *ssa.RunDefers:
+			x.compactHeap(st)
+		}
 	}
 	// record edge states
 	last := b.Instrs[len(b.Instrs)-1]
